@@ -20,6 +20,11 @@ PROPS = {
     "C13": {"profiles": ["C13"], "count": (300, 5000), "mc": [], "gen": []},
     "C14": {"profiles": ["C14"], "count": (300, 5000), "mc": [], "gen": []},
     "C15": {"profiles": ["C15"], "count": (300, 5000), "mc": [], "gen": []},
+    "C16": {"profiles": ["C16"], "count": (300, 4000), "mc": [], "gen": []},
+    "C17": {"profiles": ["C17", "C13", "C06"], "count": (500, 8000), "mc": [], "gen": []},
+    "C18": {"profiles": ["C18"], "count": (300, 4000), "mc": [], "gen": []},
+    "C19": {"profiles": ["C19"], "count": (1500, 20000), "mc": [], "gen": []},
+    "C20": {"profiles": ["C20"], "count": (400, 4000), "mc": [], "gen": []},
 }
 
 META = {}
